@@ -150,6 +150,35 @@ fn handle(v: &Value) -> Value {
             }).collect();
             json!({ "ok": rows })
         }
+        "threads" => {
+            // concurrent exports of several types into one file (real threads, real mutex)
+            let root = s(v, "root").to_owned();
+            let rounds = v.get("rounds").and_then(Value::as_u64).unwrap_or(1);
+            let gens: Vec<(String, String)> = v.get("gens").and_then(Value::as_array).expect("gens").iter()
+                .map(|g| (s(g, "name").to_owned(), s(g, "text").to_owned())).collect();
+            let mut finals = Vec::new();
+            for round in 0..rounds {
+                let _ = std::fs::remove_dir_all(&root);
+                std::fs::create_dir_all(&root).expect("mk root");
+                verif::registry_reset();
+                let path = PathBuf::from(&root).join("shared.ts");
+                let barrier = std::sync::Arc::new(std::sync::Barrier::new(gens.len()));
+                let mut hs = Vec::new();
+                for (i, (name, text)) in gens.iter().cloned().enumerate() {
+                    let (b, p) = (barrier.clone(), path.clone());
+                    hs.push(std::thread::spawn(move || {
+                        b.wait();
+                        if (i as u64 + round) % 3 == 0 { std::thread::yield_now(); }
+                        verif::export_and_merge(p, name, text).is_ok()
+                    }));
+                }
+                let oks: Vec<bool> = hs.into_iter().map(|h| h.join().unwrap_or(false)).collect();
+                let content = std::fs::read_to_string(&path).unwrap_or_default();
+                finals.push(json!({"ok": oks.iter().all(|b| *b), "file": content}));
+            }
+            let _ = std::fs::remove_dir_all(&root);
+            json!({ "ok": finals })
+        }
         "consts" => json!({ "ok": { "NOTE": verif::NOTE, "DECLARATION_START": verif::DECLARATION_START,
                                     "esm": cfg!(feature = "import-esm"),
                                     "default_out_dir": lossy(verif::default_out_dir()) } }),
